@@ -74,7 +74,7 @@ func c14CheckRacy(e *escapeAnalysisImpl, w *dataflow.VerifShareWorld, kf string,
 // every leak form x every access form, object address used directly
 func Harness_C14_leak_forms() {
 	leak := verifPick("leak", 0, 9)
-	access := verifPick("access", 0, 2)
+	access := verifPick("access", 0, 4)
 	w := dataflow.VerifBuildShareProgram(nil, nil, leak, 0, access, 0)
 	if e, ok := c14Analyze(w); ok {
 		c14CheckRacy(e, w, "", false)
@@ -83,7 +83,7 @@ func Harness_C14_leak_forms() {
 
 // the address travels through one transport between the allocation and the leaked / accessed values
 func Harness_C14_leak_through_transport() {
-	t := verifPick("transport", 0, 24)
+	t := verifPick("transport", 0, 26)
 	variant := verifPick("variant", 0, 1)
 	leak := verifPick("leak", 0, 1) * 5 // go statement in main / inside a summarized callee
 	leakAt := verifPick("leakAt", 0, 1)
